@@ -75,7 +75,7 @@ def run(R):
     exe = R.cc("mt_workload", ["mt_workload.c"], "tsan")
     reports = 0
     mtfiles = []
-    runs = [(8, 3, "default"), (8, 3, "internal"), (2, 4, "default"), (16, 2, "default")]
+    runs = [(8, 3, "default"), (8, 3, "internal"), (2, 4, "default"), (16, 2, "default"), (8, 2, "default-closed"), (12, 2, "default-closed")]
     if thorough:
         runs += [(16, 6, "internal"), (4, 10, "default"), (12, 5, "default"), (3, 10, "internal")]
     for i, (n, it, rng) in enumerate(runs):
